@@ -58,6 +58,13 @@ def observe(make_operands, op, mutate_result=True, result_matters=True):
     except Exception as e:
         return False, False, e
     mutated = any(a.tobytes() != b for a, b in zip(arrs, before))
+    # an operand whose payload attribute was *rebound* to a new array (x.data = f(x.data)) is mutated too:
+    # read the operands' payloads again and compare with what they held before the call
+    arrs_after = []
+    for o in ops:
+        arrs_after += arrays_of(o)
+    if len(arrs_after) != len(before) or any(a.tobytes() != b for a, b in zip(arrs_after, before)):
+        mutated = True
     shares = False
     if result_matters:
         rarr = arrays_of(res)
